@@ -29,7 +29,7 @@ OPS = {'__add__': '+', '__sub__': '-', '__mul__': '*', '__truediv__': '/', '__fl
 MASKS = {'where': 'masked_where', 'greater': 'masked_greater', 'greater_equal': 'masked_greater_equal',
          'less': 'masked_less', 'less_equal': 'masked_less_equal', 'values': 'masked_values', 'equal': 'masked_equal',
          'invalid': 'masked_invalid'}
-MASK_DROPPERS = ('asarray', 'array', 'filled', 'getdata', 'ascontiguousarray')
+MASK_DROPPERS = ('asarray', 'array', 'filled', 'getdata', 'ascontiguousarray', 'resize', 'append', 'insert', 'delete', 'pad', 'broadcast_to')   # calibrated in the thorough tier
 
 
 def drops_mask(e):
@@ -407,6 +407,80 @@ def run(ctx):
             ctx.ok('R-MASKKEEP', 'mask_vals template', w6, text5)
     ctx.floor('operator handlers', sum(1 for o in ctx.obligations if o['rule'] == 'R-OPTABLE'), 17)
     ctx.floor('mask predicates', sum(1 for o in ctx.obligations if o['rule'] == 'R-MASKTABLE'), 8)
+    # ---------------- R-COORDKEYS: a copy (also a structure-only one) keeps the receiver's coordinate keys
+    ctx.rule('R-COORDKEYS', '_copywith hands the coordinate keys to the copy on every path, whether or not variables are copied (pncbo and mask fill the copy afterwards)')
+    cw = ctx.src.mod(FILES).func('PseudoNetCDFFile._copywith')
+    wcw = 'src/PseudoNetCDF/%s PseudoNetCDFFile._copywith' % FILES
+    how = None
+    badst = None
+    for st in cw.body:      # top level only: must not depend on the `variables` switch
+        if isinstance(st, ast.Assign) and any(isinstance(t, ast.Attribute) and t.attr == '_operator_exclude_vars' and norm(t.value) == 'outf' for t in st.targets) \
+                and 'self._operator_exclude_vars' in norm(st.value):
+            how = norm(st)[:70]
+        if isinstance(st, ast.Expr) and isinstance(st.value, ast.Call) and dotted(st.value.func) == 'outf.setCoords' and st.value.args \
+                and norm(st.value.args[0]) in ('self.getCoords()', 'self._operator_exclude_vars'):
+            ms = kw(st.value, 'missing') or (st.value.args[1] if len(st.value.args) > 1 else None)
+            if ms is None or const_str(ms) == 'ignore':
+                how = norm(st)[:70]
+            else:
+                badst = st
+    if how:
+        ctx.ok('R-COORDKEYS', '_copywith', wcw, how)
+    elif badst is not None:
+        ctx.violation(Finding('R-COORDKEYS', FILES, 'PseudoNetCDFFile._copywith', badst, 'the coordinate keys are filtered by the variables the copy already holds (%s): a structure-only copy - what '
+                              'pncbo and mask() start from - gets none, so the next operation computes on the coordinate variables' % norm(badst.value.keywords[0].value if badst.value.keywords else badst.value.args[1])))
+    else:
+        ctx.violation(Finding('R-COORDKEYS', FILES, 'PseudoNetCDFFile._copywith', cw.body[-1], 'the copy does not receive the coordinate keys of the receiver on every path: results of file arithmetic / '
+                              'mask() lose them and the next operation computes on the coordinate variables'))
+    # ---------------- R-WHEREAPPLY: which variables a positional mask applies to (finite case analysis of the condition)
+    from .. import consteval
+    ctx.rule('R-WHEREAPPLY', 'mask(where=): applied to a variable iff the mask is tied to exactly its dimensions, or is untied and has exactly its shape')
+    mfn2 = ctx.src.mod(FILES).func('PseudoNetCDFFile.mask')
+    wcond = None
+    for st in iter_stmts(mfn2.body):
+        if isinstance(st, ast.If) and any(isinstance(c, ast.Call) and (dotted(c.func) or '').endswith('masked_where') for s2 in st.body for c in ast.walk(s2)) \
+                and norm(st.test) != 'where is not None':
+            wcond = st
+    wmask = 'src/PseudoNetCDF/%s PseudoNetCDFFile.mask' % FILES
+    if wcond is None:
+        ctx.undec('R-WHEREAPPLY', 'condition', wmask, 'no condition found around masked_where(where, vals) besides "where is not None"')
+    else:
+        D, O = ('y', 'x'), ('x', 'y')
+        S, T = (3, 3), (3, 4)
+        cases = [  # (maskdims, var dims, where shape, vals shape) -> applies?
+            ((D, D, S, S), True), ((D, D, S, T), True), ((None, D, S, S), True), ((None, D, S, T), False), ((None, D, T, S), False),
+            ((O, D, S, S), False), ((O, D, S, T), False), ((D, O, S, S), False), ((None, (), (), ()), True), ((None, ('t',), S, (3,)), False)]
+        wrong = unk = None
+        for (md, vd, ws, vs), want in cases:
+            def hook(n, md=md, vd=vd, ws=ws, vs=vs):
+                t = norm(n)
+                if t == 'maskdims':
+                    return ('$none',) if md is None else md
+                if t in ('vv.dimensions', 'tuple(vv.dimensions)'):
+                    return vd
+                if t in ('where.shape', 'np.shape(where)', 'where[...].shape'):
+                    return ws
+                if t in ('vals.shape', 'np.shape(vals)', 'vv.shape', 'vv[...].shape'):
+                    return vs
+                if isinstance(n, ast.Compare) and len(n.ops) == 1 and isinstance(n.ops[0], (ast.Is, ast.IsNot)) and norm(n.left) == 'maskdims' \
+                        and isinstance(n.comparators[0], ast.Constant) and n.comparators[0].value is None:
+                    return (md is None) == isinstance(n.ops[0], ast.Is)
+                return None
+            got = consteval.ev(wcond.test, {}, hook)
+            if got is consteval.UNK:
+                unk = (md, vd, ws, vs)
+                continue
+            if bool(got) != want:
+                wrong = (md, vd, ws, vs, bool(got))
+                break
+        if wrong:
+            ctx.violation(Finding('R-WHEREAPPLY', FILES, 'PseudoNetCDFFile.mask', wcond, 'for a mask tied to dimensions %s, a variable with dimensions %s, mask shape %s and value shape %s the mask is %s: '
+                                  'a positional mask then %s' % (wrong[0], wrong[1], wrong[2], wrong[3], 'applied' if wrong[4] else 'not applied',
+                                                                  'hits variables it was not given for (or raises on a shape it does not fit)' if wrong[4] else 'is silently ignored')))
+        elif unk:
+            ctx.undec('R-WHEREAPPLY', 'condition', wmask, 'condition outside the evaluated fragment: %s' % norm(wcond.test)[:80])
+        else:
+            ctx.ok('R-WHEREAPPLY', 'condition', wmask, '%d cases (tied/untied x same/other dimensions x same/other shape) as stated' % len(cases))
 
 
 def _stmt(node):
